@@ -106,6 +106,9 @@ def parse_spec(path):
             elif key == '@record':
                 a, _, b = rest.partition(' = ')
                 cfg['record_names'][a.strip()] = b.strip()
+            elif key == '@alias':
+                a, _, b = rest.partition(' = ')
+                cfg.setdefault('aliases', {})[a.strip()] = b.strip()
             elif key == '@typedef':
                 a, _, b = rest.partition(' = ')
                 cfg['typedefs'][a.strip()] = b.strip()
